@@ -112,6 +112,44 @@ def lowercase_forms():
             yield Form(mn, mn, "regpair.lowercase-register", "%s,%s" % (a, b), {"mode": "regpair", "r0": a.upper(), "r1": b.upper()}, {})
 
 
+LABEL_PRE = [" ORG $2000\n", "L NOP\n", " NOP\n", " NOP\n", "M NOP\n"]
+LABEL_POST = ["ZZ9 NOP\n", "ZZA NOP\n"]
+
+
+def labelexpr_cases():
+    """label expressions in one- and two-byte operand fields (wave 10, C12-N: the range check and the rendering in the reserved
+    width were skipped for address expressions).  L = $2000, M = $2003 are behind the statement, ZZ9 / ZZA right after it.
+    known small value -> must carry it if accepted; value that cannot fit an 8-bit immediate -> must be rejected; the rest
+    (negative results, < with a label) -> generic clause only"""
+    small = (("M-L", 3), ("ZZA-ZZ9", 1), ("ZZA-L-0", None), ("M-L+0", None))
+    for src in ("LDA", "LDB", "CMPA", "ADDB", "EORA", "SBCB", "LDX", "CMPY", "ADDD", "LDS"):
+        canon = src
+        tr = traits_of(canon)
+        bits = 16 if tr["op16"] else 8
+        out = []
+        for e, v in small:
+            if v is not None:
+                out.append(("imm%d.label-expression" % bits, "#" + e, {"mode": "imm", "val": v, "bits": bits}, False))
+                out.append(("mem.dir.label-expression", "<" + e, {"mode": "dir", "val": v}, False))
+            else:
+                out.append(("imm%d.label-expression" % bits, "#" + e, None, True))
+        for e in ("L-M", "ZZ9-ZZA", "L-ZZA"):
+            out.append(("imm%d.label-expression-negative" % bits, "#" + e, None, True))
+        for e in ("L+1", "M-1", "ZZA+2", "ZZ9-1", "1+L"):
+            if bits == 8:
+                out.append(("imm8.label-expression-range", "#" + e, None, False))
+            else:
+                v = {"L+1": 0x2001, "M-1": 0x2002, "1+L": 0x2001}.get(e)
+                out.append(("imm16.label-expression", "#" + e, {"mode": "imm", "val": v, "bits": 16} if v is not None else None, v is None))
+            out.append(("mem.dir.label-expression-wide", "<" + e, None, True))
+        for form, operand, expect, generic in out:
+            c = {"id": "%s/%s/%s" % (form, src, operand), "lines": LABEL_PRE + [" %s %s\n" % (src, operand)] + LABEL_POST, "notail": True,
+                 "target": len(LABEL_PRE), "mn": src, "canon": canon, "form": form, "expect": expect, "traits": tr, "operand": operand}
+            if generic:
+                c["g3"] = True
+            yield c
+
+
 PRELUDE = ["V EQU 5\n", "W EQU $1234\n", " ORG $2000\n", "L NOP\n"]
 
 
